@@ -2,15 +2,70 @@
 From Coq.Strings Require Import Byte String.
 From Coq Require Import List Arith NArith Bool.
 Import ListNotations.
-From V Require Import lib.Bytes lib.Sexp model.Ast model.Gen model.SourceMap spec.Denote.
+From V Require Import lib.Bytes lib.Sexp model.Ast model.Gen model.SourceMap spec.Denote model.IrFrag model.IrFragPrint.
 Require Extraction.
 Require Import ExtrOcamlBasic.
 
 Definition isf (f : bytes) (s : string) : bool := bytes_eqb f (bs s).
 Definition arg (n : nat) (a : list bytes) : bytes := nth n a [].
 
+(* ---- the C02 fragment (model/IrFrag.v) run on the probe environment: the oracles of Section Sem instantiated from
+        the environment wire the denotational renderer uses ---- *)
+Definition fr_str (ev : Denote.env) (e : expr) : option bytes :=
+  match Denote.lookup ev (e_val e) with Some (VStr s) => Some s | Some VErr => None | _ => Some (bs "?unknown-expression?") end.
+Definition fr_bool (ev : Denote.env) (e : expr) : bool :=
+  match Denote.lookup ev (e_val e) with Some (VBool b) => b | _ => false end.
+Definition fr_for (ev : Denote.env) (e : expr) : list Denote.env :=
+  match Denote.lookup ev (e_val e) with Some (VIter its) => map (fun b => b ++ ev) its | _ => [] end.
+Definition fr_sw (ev : Denote.env) (e : expr) : nat :=
+  match Denote.lookup ev (Denote.pre "switch:" (e_val e) ++ bs "@" ++ dec (e_fi e)) with Some (VIdx i) => i | _ => 5000 end.
+Definition fr_class (ev : Denote.env) (e : expr) : bytes :=
+  match Denote.lookup ev (Denote.pre "class:" (e_val e)) with Some (VStr s) => s | _ => bs "?unknown-class?" end.
+Definition fr_callee (e : expr) : bytes := callee_name (e_val e).
+Definition fr_call_env (ev : Denote.env) (e : expr) : Denote.env := Denote.restrict ev.
+Definition show_kind (k : evk) : bytes :=
+  match k with KStr => bs "str" | KBool => bs "bool" | KFor => bs "for" | KSwitch => bs "switch" | KCall => bs "call" | KGo => bs "go" | KClass => bs "class" end.
+Definition show_trace (t : list event) : bytes :=
+  flat_map (fun ke => let '(k, e) := ke in show_kind k ++ bs " " ++ dec (e_fi e) ++ bs " " ++ e_val e ++ [x0a]) t.
+Definition show_res (r : res) : bytes :=
+  let '(o, _, p) := r in
+  match p with
+  | None => bs "OK:" ++ o
+  | Some (l, c) => bs "ERR:" ++ dec l ++ bs ":" ++ dec c ++ bs ":" ++ o end.
+Definition frag_run (denot : bool) (fl : file) (name : bytes) (ev : Denote.env) : list bytes :=
+  match to_frag_file fl with
+  | None => [bs "not-fragment"]
+  | Some l =>
+      let tbl := frag_table l in
+      match IrFrag.find tbl name with
+      | None => [bs "no-template"]
+      | Some body =>
+          let r := if denot
+                   then denote_f Denote.env Gen.hesc fr_str fr_bool fr_for fr_sw fr_class fr_callee fr_call_env true tbl 300 ev body None
+                   else exec_f Denote.env Gen.hesc fr_str fr_bool fr_for fr_sw fr_class fr_callee fr_call_env true
+                          (compile Gen.hesc tbl) 300 ev (coalesce (gens Gen.hesc body None)) in
+          [bs "ok"; show_res r; show_trace (trace_of r); b2 (tbl_hoist_free tbl)]
+      end
+  end.
+
 Definition dispatch (f : bytes) (a : list bytes) : list bytes :=
-  if isf f "gen" then
+  if isf f "frag_gen" then
+    (* args: file name, AST wire.  reply: ok, Go text, literals | not-fragment *)
+    match parse_all (arg 1 a) with
+    | Some x => match dfile x with
+                | Some fl => match frag_generate (arg 0 a) fl with
+                             | Some (code, lits) => [bs "ok"; code; join_with [x0a] lits]
+                             | None => [bs "not-fragment"] end
+                | None => [bs "decode-ast"] end
+    | None => [bs "decode-sexp"] end
+  else if isf f "frag_exec" || isf f "frag_denote" then
+    (* args: AST wire, template name, environment wire.  reply: ok, OK:<bytes> | ERR:<line>:<col>:<bytes>, trace, hoist-free flag *)
+    match parse_all (arg 0 a), parse_all (arg 2 a) with
+    | Some x, Some ev => match dfile x with
+                         | Some fl => frag_run (isf f "frag_denote") fl (arg 1 a) (denv ev)
+                         | None => [bs "decode-ast"] end
+    | _, _ => [bs "decode-sexp"] end
+  else if isf f "gen" then
     match parse_all (arg 1 a) with
     | Some x => match dfile x with
                 | Some fl => let '(code, lits, sm) := generate_all (arg 0 a) fl in
